@@ -224,16 +224,25 @@ def rule_R1(ctx, prj):
             ctx.viol("R1", f"{f.local}/displayed-triple", f.site(), f"for (easy, verbose, hard, unmaintainable) = {sample} the percentages shown are {first3}: they do not cover easy, verbose, hard-to-maintain and unmaintainable exactly once (sum is not 100)")
 
 
-def _render_summary(prj, f, sample):
-    """texts printed / built by a summary renderer when quality_profile_percentage() returns `sample`"""
+def _render_summary(prj, f, sample, through_profile=True):
+    """texts printed / built by a summary renderer when the percentages are `sample` (which sums to 100): the report's
+    quality_profile() is made to return `sample` as line counts, so quality_profile_percentage() - interpreted, whatever it
+    returns (tuple, named tuple, object) - yields exactly these percentages; if that is not evaluable, the result of
+    quality_profile_percentage() itself is replaced by the plain tuple"""
+    if through_profile and sum(sample) == 100:
+        try:
+            return _render_summary(prj, f, sample, through_profile=None)
+        except AnalysisError:
+            return _render_summary(prj, f, sample, through_profile=False)
     run = Run()
     base = _hook(run)
+    target = "quality_profile" if through_profile is None else "quality_profile_percentage"
 
     def hook(it, kind, fn, args, kwargs, node, cur):
-        if kind == "call" and isinstance(fn, BoundFunc) and fn.fi.name == "quality_profile_percentage":
-            return tuple(sample)
-        if kind == "call" and isinstance(fn, tuple) and fn and fn[0] == "method" and fn[2] == "quality_profile_percentage":
-            return tuple(sample)
+        if kind == "call" and isinstance(fn, BoundFunc) and fn.fi.name == target:
+            return list(sample) if through_profile is None else tuple(sample)
+        if kind == "call" and isinstance(fn, tuple) and fn and fn[0] == "method" and fn[2] == target:
+            return list(sample) if through_profile is None else tuple(sample)
         return base(it, kind, fn, args, kwargs, node, cur)
     it = MiniInterp(prj, hook)
     rep = Sym("report", _cls=prj.cls("codelimit.common.report.Report:Report"))
